@@ -198,7 +198,9 @@ def handle (req : Json) : Except String Json := do
           | none => []
         | .error _ => []
       | none => []
-    let aux0 : List (List Int) := w1.tgts.map (fun _ => [0, 0, 0]) ++ dynRow
+    let constFlags (ds : List PDecl) : List Int := ds.map fun d => if d.constant || d.readonly then 1 else 0
+    let aux0 : List (List Int) := ((tds.take w1.tgts.length).map fun td =>
+      [0, 0, 0] ++ constFlags (td.1.map (·.1)) ++ constFlags (td.1.map (·.1))) ++ dynRow
     let sub := (getOpt case "sub").bind (·.getBool?.toOption) |>.getD false
     let own0 : List (List Int) := tds.map fun td => td.1.map fun _ => if sub then 0 else 1
     let (mSteps, branches) := runModel c aux0 own0 w1 ops
